@@ -284,29 +284,44 @@ where
         cell_key: CellKey,
         vertex: Vertex<K::Scalar, U, D>,
     ) -> Result<FlipInfo<D>, FlipError> {
-        self.tri.flip_k1_insert(cell_key, vertex)
+        // Edits bypass `insert`: drop the duplicate-detection index and locate hint so they are
+        // rebuilt from the edited vertex set (as `as_triangulation_mut` does).
+        self.triangulation_mut_for_edit()
+            .flip_k1_insert(cell_key, vertex)
     }
 
     fn flip_k1_remove(&mut self, vertex_key: VertexKey) -> Result<FlipInfo<D>, FlipError> {
-        self.tri.flip_k1_remove(vertex_key)
+        // Edits bypass `insert`: drop the duplicate-detection index and locate hint so they are
+        // rebuilt from the edited vertex set (as `as_triangulation_mut` does).
+        self.triangulation_mut_for_edit().flip_k1_remove(vertex_key)
     }
 
     fn flip_k2(&mut self, facet: FacetHandle) -> Result<FlipInfo<D>, FlipError> {
-        self.tri.flip_k2(facet)
+        // Edits bypass `insert`: drop the duplicate-detection index and locate hint so they are
+        // rebuilt from the edited vertex set (as `as_triangulation_mut` does).
+        self.triangulation_mut_for_edit().flip_k2(facet)
     }
 
     fn flip_k3(&mut self, ridge: RidgeHandle) -> Result<FlipInfo<D>, FlipError> {
-        self.tri.flip_k3(ridge)
+        // Edits bypass `insert`: drop the duplicate-detection index and locate hint so they are
+        // rebuilt from the edited vertex set (as `as_triangulation_mut` does).
+        self.triangulation_mut_for_edit().flip_k3(ridge)
     }
 
     fn flip_k2_inverse_from_edge(&mut self, edge: EdgeKey) -> Result<FlipInfo<D>, FlipError> {
-        self.tri.flip_k2_inverse_from_edge(edge)
+        // Edits bypass `insert`: drop the duplicate-detection index and locate hint so they are
+        // rebuilt from the edited vertex set (as `as_triangulation_mut` does).
+        self.triangulation_mut_for_edit()
+            .flip_k2_inverse_from_edge(edge)
     }
 
     fn flip_k3_inverse_from_triangle(
         &mut self,
         triangle: TriangleHandle,
     ) -> Result<FlipInfo<D>, FlipError> {
-        self.tri.flip_k3_inverse_from_triangle(triangle)
+        // Edits bypass `insert`: drop the duplicate-detection index and locate hint so they are
+        // rebuilt from the edited vertex set (as `as_triangulation_mut` does).
+        self.triangulation_mut_for_edit()
+            .flip_k3_inverse_from_triangle(triangle)
     }
 }
